@@ -17,7 +17,8 @@ import (
 
 func snapMonitors() []monitor.Monitor {
 	a := &monitor.Apply{}
-	return []monitor.Monitor{a, &monitor.Snapshots{A: a}, &monitor.Leader{}, &monitor.Commit{}, &monitor.LogMatch{}, &monitor.Linear{A: a}}
+	cm := &monitor.Commit{}
+	return []monitor.Monitor{a, cm, &monitor.Snapshots{A: a, C: cm}, &monitor.Leader{}, &monitor.LogMatch{}, &monitor.Linear{A: a}}
 }
 
 var scenarios = map[string]*sched.Scenario{}
@@ -44,6 +45,10 @@ func init() {
 		Prefix: sim.MustParse("timeout n0"),
 		Steps:  [][]sim.Event{sim.MustParse("write n0", "write n0"), sim.MustParse("write n0"), sim.MustParse("crash n0"), sim.MustParse("restart n0")}})
 
+	// M: a second membership request races with the commit and application of a removal
+	regScenario(&sched.Scenario{Name: "mem-race", Cfg: sim.Config{Voters: 3, Spares: 1}, Monitors: memberMonitors,
+		Prefix: append(append([]sim.Event{}, seedLeader3...), sim.MustParse("write n0", "remove n0 a=1", "deliver 0>2:AE#3")...),
+		Steps:  [][]sim.Event{sim.MustParse("reply 0>2:AE#3", "api n0 Add:3:voter"), sim.MustParse("rt 0>1:AE#3"), sim.MustParse("beat n0")}})
 	// B: a lagging follower applies entries while a snapshot is being installed.
 	lag := append(append([]sim.Event{}, seedLeader3...), sim.MustParse(
 		"isolate n2", "write n0", "rt 0>1:AE#2", "rt 0>1:AE#3", "write n0", "rt 0>1:AE#4", "rt 0>1:AE#5",
@@ -60,7 +65,11 @@ func init() {
 		if tier == "thorough" {
 			pl = []schedPlan{{"snap1-seq", 3, 400}, {"snap1-par", 2, 300}, {"snap1-big", 2, 200}, {"inst3-restore", 3, 400}, {"inst3-compact", 3, 400}}
 		}
-		return schedCheck(prop, tier, pl, nil)
+		cl := []plan{{"snap3-d2", 60}, {"memsnap3-d2", 60}, {"stalesuffix3-d2", 30}}
+		if tier == "thorough" {
+			cl = []plan{{"snap3-d3", 500}, {"memsnap3-d3", 400}, {"bigsnap3-d2", 200}, {"stalesuffix3-d3", 300}}
+		}
+		return schedCheckWith(prop, tier, pl, nil, cl)
 	}
 	replayers["sched"] = func(r *common.Replay, path string) int {
 		sc := scenarios[r.Suite]
@@ -99,14 +108,50 @@ type schedShardOut struct {
 // schedCheck explores each scenario up to its bound (iterating 0..bound so that
 // the first counterexample has the fewest deviations) and writes the evidence.
 func schedCheck(prop, tier string, plans []schedPlan, extra map[string]any) int {
+	return schedCheckWith(prop, tier, plans, extra, nil)
+}
+
+func schedCheckWith(prop, tier string, plans []schedPlan, extra map[string]any, cluster []plan) int {
 	t0 := time.Now()
 	rep := common.NewReport(prop)
+	reported := map[string]bool{}
+	cov, code := runSchedPlans(prop, plans, rep, reported)
+	if code != 0 {
+		return code
+	}
+	for k, v := range extra {
+		cov[k] = v
+	}
+	if len(cluster) > 0 {
+		cc, ex, code := runClusterPlans(prop, cluster, rep, reported)
+		if code != 0 {
+			return code
+		}
+		for k, v := range cc {
+			cov[k] = v
+		}
+		if !ex {
+			cov["exhaustive"] = false
+		}
+	}
+	ev := &common.Evidence{PropertyID: prop, Tier: tier, Seed: common.Seed(), Level: "exploration", Coverage: cov, WallS: time.Since(t0).Seconds(), Violations: len(rep.Violations),
+		Assumptions: []string{"scheduling points are the library's synchronisation operations; C20 checks that no unsynchronised access makes other switch points relevant", "bounded number of non-default decisions per execution"}}
+	if err := ev.Write(); err != nil {
+		fmt.Println("INFRA:", err)
+		return 2
+	}
+	fmt.Printf("%s %s: executions=%v with-deviation=%v distinct-final-states=%v exhaustive=%v wall=%.1fs\n", prop, tier, cov["evaluations"], cov["distinct_nontrivial"], cov["distinct_final_states"], cov["exhaustive"], time.Since(t0).Seconds())
+	return rep.Finish()
+}
+
+// runSchedPlans explores each scenario up to its bound and returns the
+// coverage counters; violations of prop are added to rep.
+func runSchedPlans(prop string, plans []schedPlan, rep *common.Report, reported map[string]bool) (map[string]any, int) {
 	var perScenario []map[string]any
 	total, preempting := 0, 0
 	exhaustive := true
 	outcomes := map[string]bool{}
 	var samples []any
-	reported := map[string]bool{}
 	for _, pl := range plans {
 		sc := scenarios[pl.scenario]
 		deadline := time.Now().Add(time.Duration(pl.secs) * time.Second)
@@ -119,7 +164,7 @@ func schedCheck(prop, tier string, plans []schedPlan, extra map[string]any) int 
 			outs, err := explore.RunShards([]string{"schedworker", pl.scenario, fmt.Sprint(bound), fmt.Sprint(deadline.UnixNano())}, n)
 			if err != nil {
 				fmt.Println("INFRA:", err)
-				return 2
+				return nil, 2
 			}
 			execs, hit, maxp, pre := 0, false, 0, 0
 			local := map[string]bool{}
@@ -127,7 +172,7 @@ func schedCheck(prop, tier string, plans []schedPlan, extra map[string]any) int 
 				var r schedShardOut
 				if err := json.Unmarshal(o, &r); err != nil {
 					fmt.Println("INFRA: bad shard output:", err)
-					return 2
+					return nil, 2
 				}
 				execs += r.Executions
 				pre += r.Preempting
@@ -172,7 +217,7 @@ func schedCheck(prop, tier string, plans []schedPlan, extra map[string]any) int 
 							out, err := explore.RunShards(args, 1)
 							if err != nil || len(out) == 0 || string(out[0]) != "yes" {
 								fmt.Printf("INFRA: schedule violation %s did not reproduce in a fresh process\n", f.V.Signature)
-								return 2
+								return nil, 2
 							}
 							if i >= 1 {
 								break
@@ -188,7 +233,7 @@ func schedCheck(prop, tier string, plans []schedPlan, extra map[string]any) int 
 						}
 						if !ok {
 							fmt.Printf("INFRA: schedule violation %s did not reproduce\n", f.V.Signature)
-							return 2
+							return nil, 2
 						}
 					}
 					params, _ := json.Marshal(f.Choices)
@@ -208,27 +253,17 @@ func schedCheck(prop, tier string, plans []schedPlan, extra map[string]any) int 
 	}
 	if total == 0 {
 		fmt.Println("INFRA: no schedule executed")
-		return 2
+		return nil, 2
 	}
 	cov := map[string]any{
 		"evaluations": total, "distinct_nontrivial": preempting,
-		"rule": "every schedule of each scenario whose number of non-default scheduling decisions is within the bound (iterated 0..bound); decisions are taken at every lock, unlock, condition signal and goroutine start of the library; non-trivial = executions with at least one non-default decision (each is a distinct decision sequence by construction)",
+		"rule":    "every schedule of each scenario whose number of non-default scheduling decisions is within the bound (iterated 0..bound); decisions are taken at every lock, unlock, condition signal and goroutine start of the library; non-trivial = executions with at least one non-default decision (each is a distinct decision sequence by construction)",
 		"samples": samples, "scenarios": perScenario, "exhaustive": exhaustive, "distinct_final_states": len(outcomes),
-	}
-	for k, v := range extra {
-		cov[k] = v
 	}
 	if len(samples) == 0 {
 		cov["samples"] = []any{"bound 0 only: the default schedule"}
 	}
-	ev := &common.Evidence{PropertyID: prop, Tier: tier, Seed: common.Seed(), Level: "exploration", Coverage: cov, WallS: time.Since(t0).Seconds(), Violations: len(rep.Violations),
-		Assumptions: []string{"scheduling points are the library's synchronisation operations; C20 checks that no unsynchronised access makes other switch points relevant", "bounded number of non-default decisions per execution"}}
-	if err := ev.Write(); err != nil {
-		fmt.Println("INFRA:", err)
-		return 2
-	}
-	fmt.Printf("%s %s: executions=%d with-deviation=%d distinct-final-states=%d exhaustive=%t wall=%.1fs\n", prop, tier, total, preempting, len(outcomes), exhaustive, time.Since(t0).Seconds())
-	return rep.Finish()
+	return cov, 0
 }
 
 func schedWorker() {
